@@ -101,6 +101,19 @@ def init(ck):
 
     cgm._cg_pretty_print_it = rec
 
+    # the eager solver announces its 'gamma = 0' (exact solve) exit only through the logger
+    import logging
+    from nifty.re.logger import logger
+
+    class Grab(logging.Handler):
+        def emit(self, record):
+            st["log"].append(record.getMessage())
+
+    st["log"] = []
+    for h in list(logger.handlers):
+        logger.removeHandler(h)
+    logger.addHandler(Grab())
+
 
 # ------------------------------------------------------------------ structure ---
 def draw_structure(rng, pool):
@@ -284,6 +297,7 @@ def run_eager(ck, s, lay, A, j, x0, cfg, name="E", public=False, maxiter=None, m
     jj = lay.wrap(np.asarray(j))
     xx0 = lay.wrap(np.asarray(x0)) if x0 is not None else None
     st["trace"].pop("E", None)
+    st["log"].clear()
     ck.hit("eager_runs")
     try:
         if public:
@@ -298,6 +312,7 @@ def run_eager(ck, s, lay, A, j, x0, cfg, name="E", public=False, maxiter=None, m
     except ValueError as e:
         return dict(exc=str(e)[:80], trace=clean_trace(st["trace"].pop("E", [])))
     return dict(x=lay.flat_np(x), info=int(info), nit=int(nit), exc=None,
+                gamma0=any("gamma=0" in m for m in st["log"]),
                 trace=clean_trace(st["trace"].pop("E", [])))
 
 
@@ -342,9 +357,11 @@ def trace_ties(trace, cfg, resn, ptrace=None):
     return False
 
 
-def floor_hit(trace):
+def floor_hit(trace, upto=None):
     """energy differences at rounding level relative to the energy -> solver ran into the floor"""
     for (i, e, de, nrm) in trace:
+        if upto is not None and i > upto:
+            continue
         if i == 0 or de is None or e is None or not np.isfinite(de):
             continue
         if abs(de) < 1e-11 * abs(e):
@@ -466,10 +483,10 @@ def compare(ck, eg, sg, x0v, cfg, resn, pert, mi, label="eager-vs-static"):
     ck.hit("eager_static_comparisons")
     sc = np.abs(eg["x"]).max() + np.abs(x0v).max() + 1e-300
     d = float(np.abs(eg["x"] - sg["x"]).max())
-    # an exit *before* miniter can only be the 'gamma = 0' exit (exact solve): whether the
-    # recursively updated residual becomes exactly zero is decided at rounding level
-    floor = (eg.get("tiny") or sg.get("tiny") or floor_hit(eg["trace"]) or floor_hit(sg["trace"])) \
-        and min(eg["nit"], sg["nit"]) < mi
+    # the 'gamma = 0' exit (recursively updated residual exactly zero) is decided at rounding level:
+    # the eager solver logs it; for the compiled one it shows as an earlier exit at an exact solution
+    floor = bool(eg.get("gamma0")) or (bool(sg.get("tiny")) and 0 <= sg["nit"] < eg["nit"]) \
+        or floor_hit(eg["trace"], min(eg["nit"], sg["nit"])) or floor_hit(sg["trace"], min(eg["nit"], sg["nit"]))
     if not floor:
         if eg["info"] != sg["info"]:
             mx = cfg.get("maxiter")
